@@ -25,7 +25,7 @@ from vf.core.runner import HarnessError, hyp_collect, VERIF
 PROPERTY = 'C22'
 LEVEL = 'exploration'
 RULE = ('cases = (DEX file, method, perturbation seeds): each method of the shipped DEX files (tests/data/APK/*.dex, the DEX '
-        'of TestActivity.apk / hello-world.apk / a2dp.Vol_137.apk) and of DEX files built from generated int/long programs is '
+        'of hello-world.apk / a2dp.Vol_137.apk in the thorough tier) and of DEX files built from generated int/long programs is '
         'decompiled K times in one process (K=4 quick, 12 thorough) after seeded heap perturbation and after other methods, '
         'plus once per fresh child process (PYTHONHASHSEED 1, 7 / 1, 7, 4242, 99999) in a different method order; quick tier '
         'samples methods, biased to long ones. non-trivial = the decompiled method has a loop or at least two local '
@@ -39,7 +39,8 @@ REPO = os.environ.get('VERIF_REPO', '/repo')
 CHILD_SEEDS = {'quick': (1, 7), 'thorough': (1, 7, 4242, 99999)}
 K_RUNS = {'quick': 4, 'thorough': 12}
 
-QUICK_FILES = ['tests/data/APK/classes.dex', 'tests/data/APK/TestActivity.apk', 'tests/data/APK/Test.dex',
+# (TestActivity.apk holds a byte-identical copy of classes.dex: not repeated)
+QUICK_FILES = ['tests/data/APK/classes.dex', 'tests/data/APK/Test.dex',
                'tests/data/APK/ExceptionHandling.dex', 'tests/data/APK/FillArrays.dex', 'tests/data/APK/AnalysisTest.dex',
                'tests/data/APK/StringTests.dex', 'tests/data/APK/InterfaceCls.dex', 'tests/data/APK/FieldsTest.dex']
 THOROUGH_FILES = QUICK_FILES + ['tests/data/APK/hello-world.apk', 'tests/data/APK/a2dp.Vol_137.apk',
@@ -75,12 +76,16 @@ def load(source):
     from androguard.core.analysis.analysis import Analysis
     if source[0] == 'file':
         raw = dex_bytes(source[1])[source[2]]
+    elif source[0] == 'bytes':                    # a child process gets the parent's generated DEX as a file
+        with open(source[1], 'rb') as f:
+            raw = f.read()
     else:
         raw = generated_dex(source[1], source[2])
     d = dex.DEX(raw)
     dx = Analysis(d)
     dx.create_xref()
     methods = [m for c in d.get_classes() for m in c.get_methods() if m.get_code() is not None]
+    d._vf_raw = raw
     return d, dx, methods
 
 
@@ -162,12 +167,28 @@ def first_diff(a, b):
     return 'length %d / %d lines' % (len(la), len(lb))
 
 
-def run_children(ctx, source, keys, tier, base_texts, label):
+def run_children(ctx, source, keys, tier, base_texts, label, raw=None):
     """decompile the methods `keys` in fresh processes with other hash seeds; compare with base_texts {key: sha1}"""
+    import tempfile
+    tmp = None
+    child_source = list(source)
+    if source[0] == 'gen':
+        fd, tmp = tempfile.mkstemp(prefix='vf_c22_', suffix='.dex')
+        with os.fdopen(fd, 'wb') as f:
+            f.write(raw)
+        child_source = ['bytes', tmp, 0]
+    try:
+        _run_children(ctx, source, child_source, keys, tier, base_texts, label)
+    finally:
+        if tmp:
+            os.unlink(tmp)
+
+
+def _run_children(ctx, source, child_source, keys, tier, base_texts, label):
     for hs in CHILD_SEEDS[tier]:
         env = dict(os.environ)
         env['PYTHONHASHSEED'] = str(hs)
-        req = json.dumps({'source': list(source), 'keys': keys, 'order_seed': hs})
+        req = json.dumps({'source': child_source, 'keys': keys, 'order_seed': hs})
         p = subprocess.run([sys.executable, '-m', 'vf.checks.c22', '--child'], input=req, capture_output=True, text=True,
                            env=env, cwd=VERIF, timeout=3600)
         if p.returncode != 0:
@@ -236,7 +257,7 @@ def shards(tier, seed):
             continue
         big = os.path.getsize(os.path.join(REPO, f)) > 300000
         for k in range(n):
-            parts = (6 if tier == 'quick' else 12) if big else 1
+            parts = (8 if tier == 'quick' else 16) if big else 1
             for part in range(parts):
                 sh.append(('file', f, k, part, parts))
     ngen = 2 if tier == 'quick' else 8
@@ -254,13 +275,13 @@ def run_shard(ctx, shard):
         return
     label = 'generated' if kind == 'gen' else os.path.basename(shard[1])
     mine = [i for i in range(len(methods)) if i % parts == part]
-    if ctx.tier == 'quick' and len(mine) > 110:
+    if ctx.tier == 'quick' and len(mine) > 90:
         # sample, biased to the long methods (loops / several locals live there)
         def size(i):
             return methods[i].get_code().get_length() if hasattr(methods[i].get_code(), 'get_length') else 0
         ranked = sorted(mine, key=lambda i: -size(i))
         rng = random.Random(ctx.seed * 7919 + part)
-        chosen = ranked[:80] + rng.sample(ranked[80:], 30)
+        chosen = ranked[:65] + rng.sample(ranked[65:], 25)
         ctx.count('methods_not_sampled', len(mine) - len(chosen))
         mine = sorted(chosen)
     k = K_RUNS[ctx.tier]
@@ -278,7 +299,7 @@ def run_shard(ctx, shard):
     for idx in todo:                              # Hypothesis may stop early on duplicates: finish deterministically
         key, h, _nt = check_method(ctx, source, dx, methods, idx, [ctx.seed * 31 + idx + j for j in range(k)], [idx + 1, idx + 2, idx + 3], label)
         base.setdefault(key, h)
-    run_children(ctx, source, sorted(base), ctx.tier, base, label)
+    run_children(ctx, source, sorted(base), ctx.tier, base, label, raw=d._vf_raw)
 
 
 def replay(ctx, case):
@@ -293,7 +314,7 @@ def replay(ctx, case):
     if len(seeds) < 12:
         seeds = seeds + [s + 1000003 for s in seeds] + list(range(12 - len(seeds)))
     key, h, _ = check_method(ctx, source, dx, methods, idx, seeds, case.get('others') or [idx + 1, idx + 2, idx + 3], label)
-    run_children(ctx, source, [key], 'thorough', {key: h}, label)
+    run_children(ctx, source, [key], 'thorough', {key: h}, label, raw=d._vf_raw)
 
 
 if __name__ == '__main__':
